@@ -70,6 +70,24 @@ def run_instance(pid, inst, tier, invariants=None, extra=None, emit=True, timeou
     return r, cases
 
 
+def run_simulation(pid, tier, invariants=None):
+    """beyond the exhaustive bounds: TLC in simulation mode on a larger instance (three names, depth 4, text / CDATA /
+    comments / PIs, three calls of up to 9 / 7 / 5 element occurrences, element-less documents); every returned state
+    of every behaviour is a replay case, the invariants are evaluated along the way"""
+    k = dict(BASE)
+    k.update(dict(Names={"a", "b", "c"}, MaxDepth=4, MaxText=2, MaxIgn=1, TextKinds={"Text", "CData"}, IgnKinds={"Comment", "PI"},
+                  EmptyDocs=True, Emit=True))
+    inv = list(invariants or ["TypeOK", "Exact", "Sound", "StackWF"])
+    if "EmitCase" not in inv:
+        inv.append("EmitCase")
+    cfg = c.cfg_text(spec="MCSpec", constants=k, invariants=inv)
+    cases = os.path.join(c.OUT, "cases", "%s-sim.ndjson" % pid)
+    r = c.run_tlc("MC_Parser", cfg, "%s-sim" % pid, workers=4, coverage=False, replay_to=cases, timeout=900,
+                  defs=dict(AttrLists='{<<>>, <<"p">>, <<"q","p">>, <<"p","q","s">>}', OccBudget="<<9, 7, 5>>"),
+                  simulate=400 if tier == "quick" else 8000, depth=80, sim_seed=c.seed() % 100000 + 1)
+    return r, cases
+
+
 RENDER_TAGS = {"C01": {"FIELDS_DIFFER", "STRUCT_COUNT"}, "C03": {"FIELDS_DIFFER", "STRUCT_COUNT"},
                "C09": {"FIELD_ORDER", "STRUCT_ORDER", "SORT_CHANGES_MORE", "STRUCT_COUNT"}}
 
@@ -193,6 +211,21 @@ def check(rep, pid, tier, instances, classes, mode, sessions, invariants=None, c
             except OSError:
                 pass
     if mode:
+        # simulated behaviours of a larger instance, replayed like the enumerated ones
+        r, cases = run_simulation(pid, tier, invariants=[i for i in (invariants or ["TypeOK", "Exact", "Sound", "StackWF"]) if i in ("TypeOK", "Exact", "Sound", "StackWF", "ResultWF", "Monotone", "NoOpOnEmptyDoc")])
+        model_violation(rep, r)
+        s, mm = replay(pid, "sim", cases, rep, render_limit=400 if tier == "quick" else 4000)
+        if s["cases"] != r.replay_count:
+            raise c.ToolError("%s/sim: %d cases printed, %d replayed" % (pid, r.replay_count, s["cases"]))
+        drift += s.get("drift", 0)
+        for m in mm:
+            if m["class"] in classes and (case_filter is None or case_filter(m)):
+                rep.violation(m, describe(m))
+            elif m["class"] not in ("verdict", "error-kind", "schema", "order", "unsound"):
+                drift += 1
+        rep.add(simulated_behaviour_cases=s["cases"])
+        total_cases += s["cases"]
+        os.remove(cases)
         t, rej = record_and_validate(rep, pid, mode, sessions, elems=elems, damage=damage)
         for x in rej:
             e = x.get("event") or {}
